@@ -1,7 +1,9 @@
 """C03 - structural invariants of returned segments (see checks/engine_common.py and harness/common.cpp: project)."""
-from checks import engine_common
+from checks import engine_common, utfcommon
 
 
 def run(ck, tier, seed):
     engine_common.run_engine(ck, tier, seed, pids=("C03",))
+    # texts in all three encodings, with NULs before nChars and ill-formed sequences (spec/UtfText.tla): same invariant
+    utfcommon.utftext(ck, tier, seed, props=("C03",))
     ck.assumptions += ["the invariant is evaluated through the public API on every segment of wild programs, GDL-lite programs (all 8 direction values) and the corpus"]
